@@ -76,6 +76,12 @@ CLAIMED = {
         text="For every atom count and label array (negative, repeated, unsorted) and any operation result: on success exactly the rows whose label equals the selected one move, all by the same vector, every other row is unchanged; a randomly selected label is non-negative and present (one unweighted draw among the filtered unique labels), a pre-selected one is honoured without a draw; on failure (no eligible particle, or every attempt vetoed) False is returned and no position changes; selections are cleared; the attempt loop restores the pre-trial positions before every new attempt. Composite of 3 sub-moves (also with a stale pre-selection): recorded labels pairwise distinct, each recorded particle displaced exactly once, others unmoved, count and result reported.",
         note="'no constraint interferes' (set_positions stores its argument); numpy/ASE contracts trusted; the cardinality clause min(n, eligible) only in the bounded native stand-in.",
         design="§7 C11"),
+    "C04": dict(
+        category="other",
+        technique="contract-based deductive verification: real drivers (Canonical, Isobaric, GrandCanonical) built by their constructors on an Atoms heap model with ASE's calculator cache protocol as a contract (true energy = uninterpreted function of the configuration, configuration equality decided at a generic row); invariant established by the real validate_simulation, two consecutive trials through the real step/move/save_state/revert_state; aliasing of in-place array writes modelled; known finding F8 recorded; native counting-calculator stand-in",
+        text="After every outcome of two consecutive trials (accepted, rejected, failed; displacement, cell and exchange moves; FixAtoms; initial magnetic moments): the energy the simulation reports equals the from-scratch energy of the current configuration, so does the reference energy for the next test; remembered positions and cell equal the current ones; cached calculator results belong to the cached configuration; exactly one evaluation per trial that reached its criteria and none to report the energy. For calculators with per-atom internal state the call precondition 'internals match the atom count' fails after a rejected exchange followed by a count-preserving trial: recorded as known finding F8, so this is NOT a proof of the whole property.",
+        note="criteria by contract (one evaluation, C02); operations/checks opaque; ASE Atoms/Calculator contracts trusted; Hamiltonian moves excluded (statement excepts them); two-trial histories, longer ones by the invariant.",
+        design="§7 C04"),
 }
 PENDING_REASON = "check not yet registered in this revision (under construction; see DESIGN.md §0/§7 for the plan)"
 
